@@ -6,7 +6,7 @@ import (
 )
 
 //verif:witness H_C03_lines end
-//verif:bound C03 quick 2 goroutines x 1 event through one sync logger; console appender on a slow stream (yields before consuming the bytes) or file appender; text/JSON layout in the appender or at logger level; payload of 1 arbitrary byte per event; sync.Pool.Get may return any pooled object or miss; pre-emption at yields, pool operations' callers' blocking points (1 pre-emptive switch)
+//verif:bound C03 quick 2 goroutines x 1 event through one sync logger; console appender on a slow stream (yields before consuming the bytes) or file appender; text/JSON layout in the appender or at logger level; payload of 1 arbitrary byte per event; the buffer-reuse cap (BufferCap) is an arbitrary int32; sync.Pool.Get may return any pooled object or miss; pre-emption at yields, pool operations' callers' blocking points (1 pre-emptive switch)
 //verif:bound C03 thorough 2 goroutines x 1..2 events, pre-emption at every visible operation (2 pre-emptive switches)
 //verif:assume C03 the sink consumes the slice it was given after an arbitrary delay (modelled as one yield before reading it); one write(2) per Write call is whole (file-system model)
 //verif:assume C03 more than 2 goroutines are outside the bound (the defect class - a pooled buffer handed out while a write is in flight - needs two)
@@ -27,6 +27,10 @@ func H_C03_lines() {
 	} else {
 		vOpt("preempt", 1)
 	}
+	// the buffer-reuse cap is arbitrary: lines below, exactly at and beyond it are all covered
+	savedCap := BufferCap.Load()
+	BufferCap.Store(vInt32("bufferCap"))
+	defer BufferCap.Store(savedCap)
 	ts := time.Unix(1700000000, 0)
 	TimeNow = func(ctx context.Context) time.Time { return ts }
 	savedCaller := enableCaller
